@@ -81,7 +81,7 @@ pub fn check_two_phase(m: &mut Monitor, fam: &str, case: u64, pe: &PhaseEquilibr
     // phases within 10 % of each other in every partial density: close to a critical point, where
     // the solvers' convergence tests (on K-factors / on the step) bound the conditions only loosely
     let near_critical = crate::c12::phase_distance(pe) < 0.1;
-    let fam_tag = if near_critical { format!("{fam} (near-critical)") } else { fam.to_string() };
+    let fam_tag = if near_critical { format!("near-critical|{fam}") } else { fam.to_string() };
     let fam = fam_tag.as_str();
     let sig = |c: &str| format!("{fam}|{c}");
     // failure mode seen on the unchanged tree: the iteration drifts to a vanishing pressure
